@@ -6,7 +6,7 @@
     PARTIAL: IP options / extension headers, truncated IPv6 quotes, TCP over IPv6 and the SACK forms are
     covered by the correspondence (independent builders) rather than by a byte-level theorem. *)
 From Coq Require Import List ZArith Bool.
-From TR Require Import Lib.Bytes Wire.Decode Wire.Build Drv.Drivers Spec.C01 Proofs.DrvProofs Proofs.ByteComplete Proofs.ByteComplete6 Eng.Engine Eng.Timed Proofs.EngComplete.
+From TR Require Import Lib.Bytes Wire.Decode Wire.Build Drv.Drivers Spec.C01 Proofs.DrvProofs Proofs.ByteComplete Proofs.ByteComplete6 Eng.Engine Eng.Timed Proofs.EngComplete Proofs.SerialComplete.
 Import ListNotations.
 Open Scope Z_scope.
 
@@ -122,4 +122,14 @@ Theorem C02_engine_accepts_every_timely_reply p script r :
   exists q, In q (tr_accepted r) /\ matches e q.
 Proof. exact (@parallel_accepts_every_timely_reply p script r). Qed.
 Print Assumptions C02_engine_accepts_every_timely_reply.
+
+(** serial engine, the histories C02 names for it: replies and noise only, at most one reply per TTL ([R] = the TTLs of the reply entries), each within its own window: every reply to a probe that was sent is accepted *)
+Theorem C02_serial_engine_accepts_every_reply_in_its_window p script r :
+  serial_run p script = TDone r ->
+  (forall e, In e script -> (e_kind e = 0 \/ e_kind e = 1) /\ (e_kind e = 0 -> 0 <= e_delay e <= tp_timeout p)) ->
+  NoDup (R script) ->
+  forall e s0, In e script -> e_kind e = 0 -> In (e_ttl e, s0) (tr_sends r) ->
+  exists q, In q (tr_accepted r) /\ matches e q.
+Proof. exact (@serial_accepts_every_reply_in_its_window p script r). Qed.
+Print Assumptions C02_serial_engine_accepts_every_reply_in_its_window.
 
